@@ -655,6 +655,47 @@ impl<'tcx> Interp<'tcx> {
             }
             return None;
         }
+        if n == "core::bool::<impl bool>::then_some" {
+            // Some(v) when the flag holds, None otherwise; a tainted flag stays unmodelled (fail closed: the
+            // discriminant of the result would carry the secret)
+            if let Val::Int(b) = a.get(0)? {
+                if b.taint != 0 {
+                    return None;
+                }
+                let v = a.get(1)?.clone();
+                return match b.is_const() {
+                    Some(0) => one(opt_none()),
+                    Some(_) => one(opt_some(v)),
+                    None => one(opt_none().join(&opt_some(v))),
+                };
+            }
+            return None;
+        }
+        if n == "core::option::Option::<T>::ok_or" {
+            if let Val::Enum(e) = a.get(0)? {
+                let mut out: Option<Val> = None;
+                for (k, fs) in &e.variants {
+                    let piece = if *k == 1 { res_ok(fs.get(0).cloned().unwrap_or(Val::Top)) } else { res_err(a.get(1)?.clone()) };
+                    out = Some(match out {
+                        Some(o) => o.join(&piece),
+                        None => piece,
+                    });
+                }
+                return one(out?);
+            }
+            return None;
+        }
+        if n == "core::cmp::Ord::min" || n == "core::cmp::Ord::max" || n == "core::cmp::min" || n == "core::cmp::max" {
+            // integers only; tainted operands stay unmodelled (a comparison on secrets is C14's business)
+            if let (Val::Int(x), Val::Int(y)) = (a.get(0)?, a.get(1)?) {
+                if x.taint != 0 || y.taint != 0 || x.ty != y.ty {
+                    return None;
+                }
+                let r = if n.ends_with("min") { IntV::new(x.lo.min(y.lo), x.hi.min(y.hi), x.ty) } else { IntV::new(x.lo.max(y.lo), x.hi.max(y.hi), x.ty) };
+                return one(Val::Int(r));
+            }
+            return None;
+        }
         if matches!(n, "core::result::Result::<T, E>::is_ok" | "core::result::Result::<T, E>::is_err" | "core::option::Option::<T>::is_some" | "core::option::Option::<T>::is_none") {
             let v = self.deref_val(st, a.get(0)?);
             if let Val::Enum(e) = &v {
